@@ -113,12 +113,14 @@ pub uninterp spec fn limit_value(m: MaxTopicSize, c: &SystemConfig) -> MaxTopicS
 impl Topic {
     // Topic::get_max_topic_size — ASSUMED here (verdict and value uninterpreted), PROVED in units topic_limit and wiring
     // ([C15.valid.*]): rejected iff a custom limit is smaller than one segment, the server default resolves to the configured limit
+    // LINKED (limit_ok / limit_value INTERPRETED as !limit_rejected / limit_resolved): units/wiring/lemmas.rs, harness [C15.link.catalogue_maps.get_max_topic_size] (mirror edits there)
     #[verifier::external_body]
     pub fn get_max_topic_size(max_topic_size: MaxTopicSize, config: &SystemConfig) -> (r: Result<MaxTopicSize, IggyError>)
         ensures r is Ok <==> limit_ok(max_topic_size, config), r matches Ok(v) ==> v == limit_value(max_topic_size, config),
     { unimplemented!() }
     // Topic::get_message_expiry — ASSUMED here (value uninterpreted), PROVED in units retention ([C14.open.resolve], [C14.shape.resolve])
     // and wiring ([C14.create.resolve]): the server default resolves to the configured expiry, anything else is kept
+    // LINKED (expiry_value INTERPRETED as expiry_resolved): units/wiring/lemmas.rs, harness [C14.link.catalogue_maps.get_message_expiry] (mirror edits there)
     #[verifier::external_body]
     pub fn get_message_expiry(message_expiry: IggyExpiry, config: &SystemConfig) -> (r: IggyExpiry)
         ensures r == expiry_value(message_expiry, config),
@@ -132,6 +134,7 @@ impl Topic {
     { unimplemented!() }
     #[verifier::external_body]
     pub fn persist(&self) -> (r: Result<(), IggyError>) ensures r is Ok { unimplemented!() }
+    // LINKED: units/catalogue_more/lemmas.rs, harness [C06.link.catalogue_maps.topic_delete] (mirror edits there)
     #[verifier::external_body]
     pub fn delete(&self) -> (r: Result<(), IggyError>) ensures r is Ok { unimplemented!() }
 }
@@ -174,6 +177,8 @@ impl Metrics {
 pub struct ClientManager { x: u8 }
 impl ClientManager {
     pub uninterp spec fn purged_streams(&self) -> Set<u32>;
+    // LINKED: units/client_memberships/lemmas.rs, harness [C06.link.catalogue_maps.delete_consumer_groups_for_stream] (mirror edits there). The link INTERPRETS
+    // purged_streams() over the real client table: the stream ids in which NO client holds a membership; the clause is then [C06.cascade.stream].
     #[verifier::external_body]
     pub fn delete_consumer_groups_for_stream(&mut self, stream_id: u32)
         ensures final(self).purged_streams() == old(self).purged_streams().insert(stream_id),
@@ -241,6 +246,7 @@ impl Stream {
     { unimplemented!() }
     #[verifier::external_body]
     pub fn persist(&self) -> (r: Result<(), IggyError>) ensures r is Ok { unimplemented!() }
+    // LINKED: units/catalogue_more/lemmas.rs, harness [C06.link.catalogue_maps.stream_delete] (mirror edits there)
     #[verifier::external_body]
     pub fn delete(&self) -> (r: Result<(), IggyError>) ensures r is Ok { unimplemented!() }
     #[verifier::external_body]
